@@ -70,7 +70,7 @@ static Op decode_op(FuzzedDataProvider &f, int nmods, bool script, int kind) {
     case P::O_CTX_REG: o.a = f.ConsumeIntegralInRange<long>(0, 7); break;
     case P::O_LOOP: o.a = pick(f, {0, 9, 200}); break;
     case P::O_QUIT: o.a = pick(f, {0, 7, 42, 255, 4, 11}); break;
-    case P::O_DISPATCH: o.a = pick(f, {1, 1, 1, 2, 2, 4, 12}); o.b = pick(f, {0, 0, 0, 0, 0, 0, 0, 0, 0, 0, 0, 1, 3}); break;
+    case P::O_DISPATCH: o.a = pick(f, {1, 1, 1, 2, 2, 4, 12}); o.b = pick(f, {0, 0, 0, 0, 0, 0, 0, 0, 0, 0, 0, 1, 3, 5}); break;
     case P::O_SET_TICK: o.a = pick(f, {0, 2, 5}); break;
     case P::O_REG: o.a = pick(f, {0, 0, 0, 0, 0, 1, 1, 2, 4, 8, 16, 32, 64, 68, 9}); o.b = f.ConsumeIntegralInRange<long>(0, 1); break;
     case P::O_SUB: o.a = f.ConsumeIntegralInRange<long>(0, P::NTOPICS - 1); o.b = pick(f, {0, 0, 0, 0, 1, 2, 3, 3, 4, 4, 8, 16, 12, 5}); break;
@@ -83,9 +83,9 @@ static Op decode_op(FuzzedDataProvider &f, int nmods, bool script, int kind) {
     case P::O_UNSTASH: o.a = pick(f, {1, 1, 2, 2, 3, 5, 0}); break;
     case P::O_BATCH_SIZE: o.a = pick(f, {0, 1, 2, 2, 3, 3, 5, -1}); break;
     case P::O_BATCH_TIMEOUT: o.a = pick(f, {0, 2, 5}); break;
-    case P::O_FD_REG: o.a = f.ConsumeIntegralInRange<long>(0, 7); o.b = pick(f, {0, 0, 0, 1, 1, 2, 4, 4, 5, 6}); break;
+    case P::O_FD_REG: o.a = f.ConsumeIntegralInRange<long>(0, 7); o.b = pick(f, {0, 0, 0, 1, 1, 2, 4, 4, 5, 6, 256, 512, 768, 769}); break;
     case P::O_FD_DEREG: case P::O_FD_WRITE: case P::O_FD_READ: o.a = f.ConsumeIntegralInRange<long>(0, 7); break;
-    case P::O_TMR_REG: o.a = f.ConsumeIntegralInRange<long>(0, 3); o.b = pick(f, {0, 0, 0, 1, 3, 4, 4, 5}); break; // periods 1, 2, 3, 5 ms
+    case P::O_TMR_REG: o.a = f.ConsumeIntegralInRange<long>(0, 3); o.b = pick(f, {0, 0, 0, 1, 3, 4, 4, 5, 768, 772}); break; // periods 1, 2, 3, 5 ms
     case P::O_TMR_DEREG: o.a = f.ConsumeIntegralInRange<long>(0, 3); break;
     case P::O_ERRNO: o.a = pick(f, {4, 11, 2, 9, 32, 255, 22}); break;
     case P::O_SRC_REG: case P::O_SRC_DEREG: o.a = f.ConsumeIntegralInRange<long>(3, 7); o.b = f.ConsumeIntegralInRange<long>(0, 2); break;
